@@ -6,8 +6,12 @@ package main
 import (
 	"bufio"
 	"encoding/json"
+	"errors"
 	"fmt"
 	"os"
+	"time"
+
+	"deps.dev/util/resolve"
 )
 
 var commands = map[string]func(args []string) error{}
@@ -83,4 +87,33 @@ func (n *ndWriter) Close() error {
 		return err
 	}
 	return n.f.Close()
+}
+
+// guarded runs one resolution under a watchdog: a resolver that does not return is recorded and not waited for (its
+// goroutine keeps spinning, so after three of them no further resolution is started).
+var (
+	errHung         = errors.New("VERIF: resolution did not return within 60s")
+	hungResolutions int
+)
+
+func guarded(f func() (*resolve.Graph, error)) (*resolve.Graph, error) {
+	if hungResolutions >= 3 {
+		return nil, errHung
+	}
+	type res struct {
+		g   *resolve.Graph
+		err error
+	}
+	ch := make(chan res, 1)
+	go func() {
+		g, err := f()
+		ch <- res{g, err}
+	}()
+	select {
+	case r := <-ch:
+		return r.g, r.err
+	case <-time.After(60 * time.Second):
+		hungResolutions++
+		return nil, errHung
+	}
 }
